@@ -213,7 +213,8 @@ var InterestingStrings = []string{
 type Group int
 
 const (
-	GroupOutline    Group = iota // one glyph (every outline x hints x metrics) and the composite fonts: all decisions
+	GroupOutline    Group = iota // one glyph (every outline x hints x metrics): all decisions
+	GroupComposite               // fonts with seac composites
 	GroupMulti                   // two and three glyphs: interactions between glyphs (subr numbering, order)
 	GroupDictionary              // fonts that vary strings, numbers, encodings, dates: no per-command decisions
 )
@@ -262,7 +263,7 @@ func C06Fonts() []Item {
 	}
 	// F: accented composites (Type 1 book seac restrictions, DESIGN.md section 10).
 	for _, f := range compositeFonts() {
-		add(GroupOutline, f)
+		add(GroupComposite, f)
 	}
 	// D: FontInfo strings over interesting bytes, each string in each field.
 	for si, s := range InterestingStrings {
